@@ -502,6 +502,9 @@ func (s *Sim) run() {
 		return
 	}
 	defer func() {
+		// never leave a writer parked (a run may end between arming a site and releasing it)
+		s.park.disarmAll()
+		s.park.releaseAll()
 		done := make(chan struct{})
 		go func() { s.led.Close(); s.pool.Shutdown(); close(done) }()
 		<-done
